@@ -358,6 +358,10 @@ def obligations(tier):
     obs.append(Obligation("transform-roundtrip", c10.transform_roundtrip_body, c10.setup_transform01, CODE + [c10.tr._SearchSpaceTransform.transform, c10.tr._SearchSpaceTransform.untransform],
                           bounds=dict(kinds=6, transform_0_1=[True, False]), budget_s=600, classify=classify, require_reach=["roundtrip"],
                           describe="untransform(transform(cfg)) == cfg for configurations on the grid, incl. narrow ranges at large magnitude (shared with C10)"))
+    for st in ([2, 3] if q else [1, 2, 3, 5, 7]):
+        obs.append(Obligation(f"box-int-step{st}", c10.make_int_kernel_body(st, False), c10.setup_kernels, CODE + [c10.tr._untransform_numerical_param],
+                              bounds=dict(low_high="z3 ints, |x|<=2^40", point="ANY z3 real", step=st), budget_s=600, classify=classify,
+                              require_reach=["untransformed"], describe=f"every point of the transformed box of IntDistribution(step={st}) maps back into the domain (shared with C10)"))
     for n in ([1, 2, 3] if q else [1, 2, 3, 4, 5]):
         obs.append(Obligation(f"categorical-{n}", make_categorical_body(n), setup_float, CODE, bounds=dict(choices=n, kinds=CHOICE_KINDS), shard_depth=3,
                               budget_s=900, classify=classify, require_reach=["checked"], describe=f"CategoricalDistribution with {n} choices from the type lattice"))
